@@ -26,11 +26,13 @@ Theorem C13_auth_not_authorized_step : forall n j s ts now,
                /\ inst_state n' j = Some (if Z.eqb j (n_me n) then ISTOPPED else ISOLATED).
 Proof. exact auth_not_authorized_step. Qed.
 
-(* (2) cluster level: node i processes that notice (ANotify) *)
+(* (2) cluster level: node i processes that notice (ANotify); no link from i is cut, so that no publication of
+   this step fails (a failed send would append an INSTANCE_FAILURE notice to the inbox) *)
 Theorem C13_not_authorized_isolates : forall c i cn j s ts t0 rest now orcs,
   aget i (c_nodes c) = Some cn -> cn_up cn = true ->
   cn_inbox cn = Auth (ok_origin j) A_NOT_AUTHORIZED ts t0 :: rest ->
   aget j (n_insts (cn_node cn)) = Some s -> is_state s = CHECKING -> is_checking_time s < ts ->
+  (forall k, is_cut c i k = false) ->
   exists c' cn', cstep c (ANotify i now orcs) = Ok c' /\ aget i (c_nodes c') = Some cn' /\
     inst_state (cn_node cn') j = Some (if Z.eqb j (n_me (cn_node cn)) then ISTOPPED else ISOLATED) /\
     cn_inbox cn' = rest /\ cn_up cn' = true /\
@@ -45,7 +47,7 @@ Theorem C13_reciprocal_isolation : forall c i j now now1 now2 orcs1 orcs2 cn cj 
   cn_pending cn = j :: rest -> cn_inbox cn = [] ->
   aget j (n_insts (cn_node cn)) = Some s -> is_state s = CHECKING -> is_checking_time s < now ->
   aget j (c_nodes c) = Some cj -> cn_up cj = true ->
-  is_cut c i j = false -> is_cut c j i = false ->
+  (forall k, is_cut c i k = false) -> is_cut c j i = false ->
   inst_state (cn_node cj) i = Some ISOLATED ->
   exists c' cn',
     crun_state c [AHandshake i now; ANotify i now1 orcs1; ANotify i now2 orcs2] = Ok c' /\
